@@ -68,7 +68,7 @@ func init() {
 			"c06.ep.udp.direct", "c06.ep.udp.none", "c06.ep.udp.socks5", "c06.ep.udp.ss2022",
 			"c06.ep.upstream.none", "c06.ep.upstream.socks5", "c06.ep.upstream.http", "c06.ep.upstream.ss2022",
 			"c06.ep.upstream-udp.none", "c06.ep.upstream-udp.socks5", "c06.ep.upstream-udp.ss2022",
-			"c06.ep.dns.udp", "c06.ep.dns.tcp", "c06.ep.origin",
+			"c06.ep.dns.udp", "c06.ep.dns.tcp", "c06.ep.origin", "c06.origin.mute",
 			"c06.op.truncate", "c06.op.extend", "c06.op.flip", "c06.op.splice", "c06.op.dup", "c06.op.insert", "c06.op.random",
 			"c06.op.field.socks5", "c06.op.field.http", "c06.op.field.none", "c06.op.craft.ss-tcp", "c06.op.craft.ss-udp",
 			"c06.op.field.socks5-udp", "c06.op.field.none-udp", "c06.op.udp-empty", "c06.op.udp-max", "c06.op.udp-srcport0", "c06.op.port0",
